@@ -1,0 +1,64 @@
+//go:build verif
+// +build verif
+
+package argmapper
+
+import (
+	"fmt"
+	"reflect"
+
+	"github.com/hashicorp/go-argmapper/internal/graph"
+	"github.com/hashicorp/go-argmapper/internal/veriford"
+)
+
+// This file is verification instrumentation (build tag "verif" only). It
+// exports what a checker living in another module cannot reach: the
+// internal graph package and the order tape of package veriford.
+
+type (
+	VerifGraph     = graph.Graph
+	VerifVertex    = graph.Vertex
+	VerifDFSFunc   = graph.DFSFunc
+	VerifTopoOrder = graph.TopoOrder
+	VerifRec       = veriford.Rec
+)
+
+// VerifVertexID is graph.VertexID.
+func VerifVertexID(v graph.Vertex) interface{} { return graph.VertexID(v) }
+
+// VerifOrdReset clears the order tape and seeds the permutation source.
+func VerifOrdReset(seed uint64, on bool) { veriford.Reset(seed, on) }
+
+// VerifOrdTape returns the ordering decisions recorded since the last reset.
+func VerifOrdTape() []veriford.Rec { return veriford.Tape() }
+
+// VerifIsRoot reports whether a vertex id is the id of the root vertex.
+func VerifIsRoot(id interface{}) bool {
+	_, ok := id.(*rootVertex)
+	return ok
+}
+
+// verifPerm: see internal/graph/verif_hooks.go.
+func verifPerm(site string, vs []graph.Vertex) []graph.Vertex {
+	veriford.Perm(site, len(vs),
+		func(i int) interface{} { return graph.VertexID(vs[i]) },
+		func(i, j int) { vs[i], vs[j] = vs[j], vs[i] })
+	return vs
+}
+
+var _ = verifPerm
+
+func init() {
+	veriford.Render = func(k interface{}) string {
+		switch k := k.(type) {
+		case *rootVertex:
+			return "root"
+		case reflect.Type:
+			return "type:" + k.String()
+		case string:
+			return "s:" + k
+		default:
+			return fmt.Sprintf("%T:%v", k, k)
+		}
+	}
+}
